@@ -116,7 +116,7 @@ CHECKS["C23"] = dict(
         "values contains every concrete result whenever the element operation is sound under its side condition (C23_lift2, C23_lift1); "
         "collapsing/normalising with a sound join keeps every member value (C23_collapse, C23_normalize); for region value sets, applying "
         "an operation in every region and the union of two value sets are sound separately per region (C23_vmap, C23_vunion). Instances "
-        "over the strided-interval model for every width and any number of members: C23_dsis_add, C23_dsis_sub, C23_dsis_neg, C23_vs_add. "
+        "over the strided-interval model for every width and any number of members: C23_dsis_add, C23_dsis_sub, C23_dsis_neg, C23_dsis_not, C23_vs_add. "
         "Tie: the extracted lifted add/sub/neg and value-set add/sub are compared member set by member set with the real "
         "DiscreteStridedIntervalSet / ValueSet, and the traced model union with the region structure of the real union. Search: every "
         "lifted operation, union, collapse, normalize, intersection, comparison and query of the real classes against the member-level "
